@@ -428,7 +428,7 @@ impl G {
             return (*self.rng.pick(&["(car 5)", "unbound-variable-zz", "(error \"boom\" 1)", "(5 5)", "(vector-ref iv 7)", "((lambda (x) x))"])).to_string();
         }
         let d1 = d - 1;
-        match self.rng.below(33) {
+        match self.rng.below(34) {
             0 | 1 => self.leaf(sc),
             2..=4 => {
                 let op = *self.rng.pick(&["+", "+", "-"]);
@@ -613,6 +613,26 @@ impl G {
                     format!("(let* (({p} {mk}) ({q} (call/cc (lambda ({k}) (set! cap (+ cap 1)) (set! {s} {k}) {p})))) {setq} (if (and (procedure? {s}) (< {c} {l})) (begin (set! {c} (+ {c} 1)) (set! nsame (+ nsame 1)) ({s} {p})) {getp}))",
                         p = p, mk = mk, q = q, k = k, s = slot, setq = setq, c = c, l = limit, getp = getp)
                 }
+            }
+            32 => {
+                // a PARAMETER assigned after the capture, at body level (no inner lambda / let / begin mentions it, so an
+                // implementation may keep it in the call frame): re-entry must see the assignment (seed C05e-1)
+                let (x, k) = (self.fresh("w"), self.fresh("k"));
+                let (slot, idx, kind) = SLOTS[self.rng.below(3) as usize];
+                let limit = 1 + self.rng.below(3);
+                let c = self.fresh("c");
+                self.counters.push((c.clone(), limit));
+                self.form_has_cc = true;
+                self.stored.push(idx);
+                for st in ["cap.sites", "cap.bare", "pattern.frame-local-assigned-after-capture", "inv.reentry", "mut.set-local"] {
+                    self.stat(st);
+                }
+                self.stat(&format!("store.{}", kind));
+                self.stat(&format!("inv.reentry.from-{}", sc.place));
+                self.stat(&format!("inv.reentry.slot-{}", kind));
+                self.stat(&format!("inv.reentry.limit-{}", limit));
+                format!("((lambda ({x}) (call/cc (lambda ({k}) (set! cap (+ cap 1)) (set! kk{i} {k}) (stamp! {i}) 0)) (set! {x} (+ {x} {inc})) (if (and (procedure? {s}) (< {c} {l})) (begin (set! {c} (+ {c} 1)) (hit! {i}) ({s} 0)) {x})) {init})",
+                    x = x, k = k, i = idx, s = slot, c = c, l = limit, inc = self.rng.range(1, 7), init = self.ie(sc, 0))
             }
             23 if !sc.ks.is_empty() => {
                 let e = self.escape(sc, d1);
